@@ -18,6 +18,21 @@ type Locker = sync.Locker
 type WaitGroup = sync.WaitGroup
 type Once = sync.Once
 
+// The remaining exported names of package sync are passed through, so that a changed
+// zapx that starts using them still builds in the instrumented flavours. Map operations
+// are atomic and never block, so they need no scheduling point; a Cond would really block
+// under the cooperative scheduler (the hang watchdog reports that as inconclusive).
+type Map = sync.Map
+type Cond = sync.Cond
+
+func NewCond(l Locker) *Cond { return sync.NewCond(l) }
+
+func OnceFunc(f func()) func() { return sync.OnceFunc(f) }
+
+func OnceValue[T any](f func() T) func() T { return sync.OnceValue(f) }
+
+func OnceValues[T1, T2 any](f func() (T1, T2)) func() (T1, T2) { return sync.OnceValues(f) }
+
 // Mutex replaces sync.Mutex.
 type Mutex struct{ real sync.Mutex }
 
